@@ -1210,10 +1210,13 @@ def c11(ctx):
                 e["reqHeaders"].append(["Content-Type", "multipart/form-data; boundary=xyz"])
                 e.update({"method": "POST", "reqFraming": "cl",
                           "reqBody": b64(b"--xyz\r\nContent-Disposition: form-data; name=\"f\"; filename=\"a.txt\"\r\nContent-Type: text/plain\r\n\r\nhello\r\n--xyz--\r\n")})
-            elif r < 0.2:
-                e["reqHeaders"] = [h for h in e["reqHeaders"] if h[0].lower() != "content-type"] + [["Content-Type", "application/json"]]
-                e.update({"method": "POST", "reqFraming": "cl", "reqBody": b64(b'{"query":"{ a { b } }","variables":null}')})
-            elif r < 0.25:
+            elif r < 0.3:
+                e["reqHeaders"] = [h for h in e["reqHeaders"] if h[0].lower() != "content-type"] + [["Content-Type", rng.choice(["application/json", "application/json", "application/json; charset=utf-8"])]]
+                body = rng.choice([b'{"query":"{ a { b } }","variables":null}', b'{"query":"{ a { b } }","variables":null}',
+                                   b'{"query":{"match_all":{}}}', b'{"query":5}', b'{"query":["a"]}', b'{"query":null}', b'{"query":true}',
+                                   b'{"query":"not graphql {{"}', b'["query"]', b'{"other":1}', b'{"query":'])
+                e.update({"method": "POST", "reqFraming": "cl", "reqBody": b64(body)})
+            elif r < 0.35:
                 e["respHeaders"].append(["Content-Encoding", "gzip"])
         cases.append({"kind": "h1", "h1": ex, "bodylimit": 1})
     for i in range(60 if quick else 1000):
